@@ -33,7 +33,9 @@ def run(ctx):
     ctx.cov["bounds"] = {"Persist": dict(option_fields=len(ps.OPT_NAMES), values_per_field="default / non-default (/ complex / None for terminal_psi; None is output_file's default)",
                                          max_deviating_fields=maxdev, multi_field_records_without_a_None_able_field_sampled_1_in=pairmod,
                                          device_shapes="holes 0..2 x terminals {0,2,3} x probe points {0,2,3} x conductivity x mesh x save_mesh",
-                                         mesh_modes=["full", "compressed"], solution_modes=["copy", "inplace", "deleted", "nofile (output_file=None)"], recorded_steps="1..4", solution_probe_points=[False, True], solution_screening=[False, True]),
+                                         mesh_modes=["full", "compressed"], solution_modes=["copy", "inplace", "deleted", "nofile (output_file=None)", "solved (the file tdgl.solve wrote)"],
+                                         histories="save X; load; remove; save Y (same shapes, other content) under the same path; load - one process",
+                                         parameter_sessions=["same process", "fresh process without the defining names", "process with the names rebound"], recorded_steps="1..4", solution_probe_points=[False, True], solution_screening=[False, True]),
                          "ParamAlg": dict(operator_levels=2, level2_sampled_1_in=401 if quick else 23),
                          "mechanism": {"Persist": ps.MECH, "ParamAlg": pa.MECH}}
     # ---- 1. design
@@ -41,7 +43,7 @@ def run(ctx):
 
     with cf.ThreadPoolExecutor(2) as ex:
         f1 = ex.submit(ctx.model_check, "Persist", ps.model_cfg(kinds, maxdev, pairmod, ctx.seed, ps.MECH, ps.INVARIANTS + ["Emit"]),
-                       name="Persist[C14]", required_actions=["Deviate", "Shape", "Save", "Load"], timeout=900)
+                       name="Persist[C14]", required_actions=["Deviate", "Shape", "Save", "Load", "Remove"], timeout=900)
         f2 = ex.submit(ctx.model_check, "ParamAlg", pa.model_cfg(2, 401 if quick else 23, ctx.seed, pa.MECH,
                                                                  ["PickleRoundTrip", "TimeDepIffSomeOperand", "Emit"]),
                        name="ParamAlg[C14: PickleRoundTrip]", required_actions=["MPickle", "Unpickle", "MCallCopy"], timeout=900)
@@ -65,6 +67,8 @@ def run(ctx):
               ps.model_cfg(small, 1, 1, 0, dict(ps.MECH, MRestoreDual=False), ["MeshRestoredEqualsRecomputed"]), "MeshRestoredEqualsRecomputed"),
              ("Persist[mutant: dynamics of a solution without a file written only with probe points, LoadSaveIdentity]",
               ps.model_cfg(["solution"], 1, 1, 0, dict(ps.MECH, MDynAlways=False), ["LoadSaveIdentity"]), "LoadSaveIdentity"),
+             ("Persist[mutant: reader memoises what it loaded by path, LoadSaveIdentity]",
+              ps.model_cfg(["device", "mesh", "solution"], 1, 1, 0, dict(ps.MECH, MMemoByPath=True), ["LoadSaveIdentity"]), "LoadSaveIdentity"),
              ("Persist[mutant: polygon points not stored as held, FileHoldsContent]",
               ps.model_cfg(small, 1, 1, 0, dict(ps.MECH, MPolyAsHeld=False), ["FileHoldsContent"]), "FileHoldsContent")]
     cases = [c + ("Persist",) for c in cases]
@@ -90,15 +94,19 @@ def run(ctx):
         # quick: a seeded third of the shapes, always including the extremes
         ext = [s for s in dshapes if (s["holes"], s["terms"], s["probes"]) in ((0, 0, 0), (2, 3, 3))]
         dshapes = ext + [s for s in dshapes if s not in ext][:60]
-    dcases = [dict(shape=s, variant=n % 6, via="group" if n % 4 == 3 else "path") for n, s in enumerate(dshapes)]
+    # history (save X, load, remove, save Y under the SAME path, load - in one process): every shape that stores a mesh,
+    # and a third of the others
+    dcases = [dict(shape=s, variant=n % 6, via="group" if n % 4 == 3 else "path",
+                   history=bool(s["mesh"] and s["savemesh"]) or n % 3 == 0) for n, s in enumerate(dshapes)]
     jobs += [("call", dict(module="harness.persist", func="device_many", args={"cases": c})) for c in chunks(dcases, 8)]
     ndev = len(jobs) - nopt
     mcases = []
     for dev, mel, smooth in (("barhole", 1.3, 0), ("film", 0.9, 0), ("tee", 1.1, 1)) + ((("cross", 0.7, 2), ("ring", 0.8, 0)) if not quick else ()):
         for s in by_kind["mesh"]:
-            mcases.append(dict(shape=s, dev=dev, mel=mel, smooth=smooth))
+            mcases.append(dict(shape=s, dev=dev, mel=mel, smooth=smooth, history=True))
     jobs += [("call", dict(module="harness.persist", func="mesh_case", args=a)) for a in mcases]
-    scases = [dict(shape=s, dev="barhole" if n % 2 == 0 else "film") for n, s in enumerate(by_kind["solution"])]
+    scases = [dict(shape=s, dev="barhole" if n % 2 == 0 else "film", history=s["mode"] != "inplace" and (not quick or n % 2 == 0 or s["mode"] == "solved"))
+              for n, s in enumerate(by_kind["solution"])]
     jobs += [("call", dict(module="harness.persist", func="solution_case", args=a)) for a in scases]
     pwork = []
     for n, it in enumerate(trees):
@@ -106,6 +114,12 @@ def run(ctx):
         if it["level"] <= 1 or n % (4 if quick else 2) == 0:
             pwork.append({"tree": it["tree"], "via": "solution", "slot": "applied_vector_potential" if n % 3 else "disorder_epsilon"})
     pjobs = [("call", dict(module="harness.persist", func="params_many", args={"items": c})) for c in chunks(pwork, 12)]
+    # the same expressions on plain named functions of a driver script's __main__, saved in one process and loaded in a
+    # fresh process / in a process where the names are rebound
+    xwork = [{"tree": it["tree"], "methods": ["pickle", "cloudpickle"] + (["solution"] if n % 4 == 0 else []),
+              "slot": "applied_vector_potential" if n % 8 else "disorder_epsilon"}
+             for n, it in enumerate(trees) if it["level"] <= 1 or n % (3 if quick else 1) == 0]
+    pjobs += [("call", dict(module="harness.persist", func="params_crossproc", args={"items": c})) for c in chunks(xwork, 2 if quick else 8)]
     jobs += pjobs
     res = rf.replay_all(ctx, jobs)
     otraces = [t for c in res[:nopt] for t in c]
@@ -177,6 +191,22 @@ def run(ctx):
         bad = copy.deepcopy(norm[acc_by_kind["solution"][-1]])
         bad["ev"][-1]["rec"]["times"] += 1
         reject(bad, "loaded Solution.times differ")
+    # history canary: the second load answers with what the path held BEFORE it was removed and rewritten
+    for k in ("device", "mesh", "solution"):
+        cands = [n for n in acc_by_kind[k] if len(norm[n]["ev"]) == 7]
+        if not cands:
+            if not ctx.violations:       # (every history rejected is a verdict, not a harness problem)
+                raise core.MachineryFailure(f"C14: no accepted history of kind {k}")
+            continue
+        bad = copy.deepcopy(norm[cands[len(cands) // 2]])
+        if k == "solution":
+            bad["ev"][6]["rec"]["mesh"] = bad["ev"][2]["rec"]["mesh"]
+            bad["ev"][6]["rec"]["currents"] = bad["ev"][2]["rec"]["currents"]
+        elif k == "device":
+            bad["ev"][6]["rec"] = bad["ev"][2]["rec"]
+        else:
+            bad["ev"][6]["rec"]["sites"] = bad["ev"][2]["rec"]["sites"]
+        reject(bad, f"{k}: second load under the same path returns the first object")
     if bads:
         acc, _ = ctx.validate_traces("PersistTrace", [b for b, _ in bads], ps.trace_cfg(), name="canaries[corrupted observations]", count=False)
         if acc:
@@ -188,7 +218,7 @@ def run(ctx):
     ctx.cov["rule"] = ("one case = one record / shape enumerated by TLC, materialised with the real classes, saved with the real to_hdf5 / pickle "
                        "and loaded back (options: re-saved into a tiny solved Solution file, a subset through a real solve; devices: 6 input "
                        "variants; meshes of 3-5 generated devices; solutions: 4 save modes x probe points x screening, every recorded step loaded, dynamics / times / closest_solve_step compared; parameters: pickle, cloudpickle and "
-                       "stored inside a Solution file); all cases are non-trivial; distinct = distinct records x materialisations")
+                       "stored inside a Solution file, also across processes on functions of a script's __main__); all cases are non-trivial; distinct = distinct records x materialisations")
     ctx.assume("terminal order inside a loaded Device is by name (h5py group order); terminals are compared as a set of named polygons, "
                "as Device.__eq__ does")
     ctx.assume("gpu=True and sparse solvers other than SuperLU cannot be materialised in this sandbox (validation needs the packages)")
